@@ -4530,6 +4530,11 @@ static void DecodeFMOVE(Word Code) {
         if (FloatOpSizeFitsDataReg(OpSize)) {
             DestMask |= MModData;
         }
+        /* FMOVE.L FPIAR,An: an address register is a legal destination for FPIAR
+           only, which is checked below once the source is known */
+        if (!*AttrPart.str.p_str || (OpSize == eSymbolSize32Bit)) {
+            DestMask |= MModAdr;
+        }
         if (DecodeAdr(&ArgStr[2], DestMask, &AdrResult)
             == ModFPn) /* FMOVE.x <ea>/FPm,FPn ? */
         {
@@ -4571,7 +4576,7 @@ static void DecodeFMOVE(Word Code) {
                 if (pCurrCPUProps->Family != eColdfire) {
                     SrcMask |= MModAIX | MModAbs | MModImm | MModPCIdx;
                 }
-                if (AdrResult.Num != ModData) { /* only for FPIAR */
+                if (AdrResult.Mode == REG_FPIAR) { /* only for FPIAR */
                     SrcMask |= MModAdr;
                 }
                 if (DecodeAdr(&ArgStr[1], SrcMask, &AdrResult)) {
